@@ -99,9 +99,43 @@ def eval_long(case):
     return OK(outcome=(L, layout), nontrivial=L >= 2, evals=nev)
 
 
+RUN_PATTERNS = [((1, 3, 2, 4), (1, 2)), ((2, 1), (1,)), ((3, 1, 1, 5, 2), (2, 1, 3)), ((1,), (1,)), ((4, 2, 6), (1, 1, 2))]
+
+
+def eval_many(case):
+    """MANY runs: R runs whose lengths cycle through a pattern (all lengths around the thresholds), separated by cycling gaps -
+    counters, run numbering and vectorised shortcuts keyed on the NUMBER of runs (128, 256, 512, 1024, > 100 short runs)."""
+    from bycycle.burst.utils import check_min_burst_cycles
+    R, pi, tail = case
+    lens, gaps = RUN_PATTERNS[pi]
+    bits = [False] if tail != 'touch-start' else []
+    for r in range(R):
+        bits += [True] * lens[r % len(lens)] + [False] * gaps[r % len(gaps)]
+    if tail == 'long-last':
+        bits += [True] * 7 + [False]
+    elif tail == 'touch-end':
+        bits = bits[:-gaps[(R - 1) % len(gaps)]]
+    nev = 0
+    for m in (2, 3, 4, 5):
+        nev += 1
+        exp = min_run_filter(bits, m)
+        got = [bool(x) for x in check_min_burst_cycles(np.array(bits, dtype=bool), min_n_cycles=m)]
+        if got != exp:
+            bad = [i for i, (a, b) in enumerate(zip(got, exp)) if a != b]
+            return VIOL({'kind': 'filter-many-runs', 'pattern': pi, 'tail': tail, 'm': m},
+                        '%d runs (pattern %s), min_n_cycles=%d: filter differs from the run-length reference at cycles %s...' % (R, lens, m, bad[:6]),
+                        observed={'first_bad_cycle': bad[0], 'runs_before': sum(1 for s_, e_ in runs(bits) if e_ <= bad[0])}, evals=nev)
+    return OK(outcome=(R, pi, tail), nontrivial=True, evals=nev)
+
+
 def spaces(tier, seed):
     from bcmc.explore import ProductSpace
+    Rs = sorted(set(list(range(96, 140)) + list(range(250, 264)) + list(range(508, 518)) + list(range(1020, 1030))
+                    + ([] if tier == 'quick' else list(range(1, 96)) + list(range(140, 250)) + list(range(2040, 2056)) + list(range(4090, 4100)))))
+    many = ProductSpace('many-runs', [Rs, list(range(len(RUN_PATTERNS))), ['plain', 'long-last', 'touch-end', 'touch-start']], eval_many,
+                        describe='%d run counts between 96 and %d x %d length/gap patterns x 4 endings x thresholds 2..5' % (len(Rs), Rs[-1], len(RUN_PATTERNS)))
     Lmax = 260 if tier == 'quick' else 1200
     return [BoolTree(12 if tier == 'quick' else 16),
             ProductSpace('exact-runs<=%d' % Lmax, [list(range(1, Lmax + 1)), ['start', 'end', 'both']], eval_long,
-                         describe='for every run length L <= %d: runs of L-1, L, L+1 at the start / end / inside x thresholds L-1, L, L+1, L+.5' % Lmax)]
+                         describe='for every run length L <= %d: runs of L-1, L, L+1 at the start / end / inside x thresholds L-1, L, L+1, L+.5' % Lmax),
+            many]
